@@ -28,14 +28,26 @@ pub fn check_all(d: &Digest) -> Vec<Violation> {
         if d.stores[s].built != Some(true) {
             continue;
         }
-        c01(d, s, &mut out);
-        c02(d, s, &mut out);
-        c03(d, s, &mut out);
-        c07(d, s, &mut out);
-        c08(d, s, &mut out);
+        timed("c01", || c01(d, s, &mut out));
+        timed("c02", || c02(d, s, &mut out));
+        timed("c03", || c03(d, s, &mut out));
+        timed("c07", || c07(d, s, &mut out));
+        timed("c08", || c08(d, s, &mut out));
     }
     crate::oracle2::check_rest(d, &mut out);
     out
+}
+
+/// DEV_TIMING=1: print what each oracle costs (development aid; no effect on verdicts)
+pub fn timed<R>(name: &str, f: impl FnOnce() -> R) -> R {
+    static ON: std::sync::OnceLock<bool> = std::sync::OnceLock::new();
+    if !*ON.get_or_init(|| std::env::var("DEV_TIMING").is_ok()) {
+        return f();
+    }
+    let t = std::time::Instant::now();
+    let r = f();
+    eprintln!("  oracle {name}: {:?}", t.elapsed());
+    r
 }
 
 /// tags expected in an instance for a registration list (build-time + run-time additions)
@@ -233,7 +245,7 @@ pub fn whole_run_direct_subs(d: &Digest, s: usize) -> Vec<(usize, usize, usize)>
         if *st != s || *d.sub_kind(*sub) != SubKind::Direct {
             continue;
         }
-        if d.regs.values().filter(|x| x.0 == *sub).count() != 1 {
+        if d.idx.nregs.get(sub) != Some(&1) {
             continue;
         }
         let c = &d.calls[*ci];
@@ -245,11 +257,7 @@ pub fn whole_run_direct_subs(d: &Digest, s: usize) -> Vec<(usize, usize, usize)>
                 continue;
             }
         }
-        let unsub_before_stop = d.calls.iter().any(|u| {
-            matches!(u.op, OpK::Unsub { reg: r } if r == *reg)
-                && u.res != Some(Res::Skipped)
-                && stop_ret.map(|sr| u.inv < sr).unwrap_or(true)
-        });
+        let unsub_before_stop = d.idx.unsub_calls.get(reg).map(|v| v.iter().any(|&u| stop_ret.map(|sr| d.calls[u].inv < sr).unwrap_or(true))).unwrap_or(false);
         if unsub_before_stop {
             continue;
         }
@@ -259,14 +267,7 @@ pub fn whole_run_direct_subs(d: &Digest, s: usize) -> Vec<(usize, usize, usize)>
 }
 
 pub fn sub_log(d: &Digest, sub: usize) -> Vec<(ActId, u32, u64, u8, usize)> {
-    d.ev
-        .iter()
-        .enumerate()
-        .filter_map(|(i, e)| match &e.k {
-            K::NotB { sub: sb, act, n, h, sel } if *sb == sub => Some((*act, *n, *h, *sel, i)),
-            _ => None,
-        })
-        .collect()
+    d.idx.logs.get(&sub).cloned().unwrap_or_default()
 }
 
 fn c03(d: &Digest, s: usize, out: &mut Vec<Violation>) {
@@ -319,23 +320,21 @@ fn c03(d: &Digest, s: usize, out: &mut Vec<Violation>) {
     // any time, by anybody) that are told about the same action are called in the order of their
     // registration, where that order is settled (the first add_subscriber returned before the
     // second was invoked)
+    let logs = &d.idx.logs;
+    let nregs = &d.idx.nregs;
+    // (a subscriber that was never notified of anything has no order to get wrong)
     let all_direct: Vec<(usize, usize, usize)> = d
         .regs
         .iter()
-        .filter(|(_, (sub, st, ci))| {
-            *st == s
-                && *d.sub_kind(*sub) == SubKind::Direct
-                && d.regs.values().filter(|x| x.0 == *sub).count() == 1
-                && d.calls[*ci].ok()
-        })
+        .filter(|(_, (sub, st, ci))| *st == s && logs.contains_key(sub) && *d.sub_kind(*sub) == SubKind::Direct && nregs[sub] == 1 && d.calls[*ci].ok())
         .map(|(reg, (sub, _, ci))| (*sub, *reg, *ci))
         .collect();
     for (a, _, ca) in &all_direct {
         for (b, _, cb) in &all_direct {
             if d.calls[*ca].ret_or_max() < d.calls[*cb].inv {
-                let la = sub_log(d, *a);
-                let lb = sub_log(d, *b);
-                for x in &la {
+                let la = &logs[a];
+                let lb = &logs[b];
+                for x in la {
                     if let Some(y) = lb.iter().find(|y| y.0 == x.0) {
                         if y.4 < x.4 {
                             v(out, "C03", "registration-order", format!("store {s}: subscriber {b} notified of {} before earlier-registered {a}", x.0));
@@ -461,8 +460,9 @@ fn c07(d: &Digest, s: usize, out: &mut Vec<Violation>) {
     // direct subscribers registered before the dispatch (and not unsubscribed) are told
     // (every policy: the rule is about the actions that were reduced, not the discarded ones)
     if sd.clean_stop.is_some() {
+        let tab = d.inst_table(s);
         for (reg, (sub, st, ci)) in &d.regs {
-            if *st != s || *d.sub_kind(*sub) != SubKind::Direct || d.regs.values().filter(|x| x.0 == *sub).count() != 1 {
+            if *st != s || *d.sub_kind(*sub) != SubKind::Direct || d.idx.nregs.get(sub) != Some(&1) {
                 continue;
             }
             let add = &d.calls[*ci];
@@ -470,14 +470,14 @@ fn c07(d: &Digest, s: usize, out: &mut Vec<Violation>) {
             if !add.ok() {
                 continue;
             }
-            let u1 = d.calls.iter().filter(|c| matches!(c.op, OpK::Unsub { reg: r } if r == *reg) && c.res != Some(Res::Skipped)).map(|c| c.inv).min();
+            let u1 = d.idx.unsub_calls.get(reg).and_then(|v| v.iter().map(|&c| d.calls[c].inv).min());
             let log = sub_log(d, *sub);
-            for inst in &sd.insts {
-                if d.notify_exp(inst) != NotifyExp::Must {
+            for (inst, (must, dc_inv, end_bound)) in sd.insts.iter().zip(&tab) {
+                if !*must {
                     continue;
                 }
-                let Some(dc) = d.dispatch_call_of(s, inst.act) else { continue };
-                if add_ret >= dc.inv || u1.map(|u| u < d.inst_end_bound(s, inst)).unwrap_or(false) {
+                let Some(dc_inv) = *dc_inv else { continue };
+                if add_ret >= dc_inv || u1.map(|u| u < *end_bound).unwrap_or(false) {
                     continue;
                 }
                 if !log.iter().any(|x| x.0 == inst.act) {
